@@ -113,6 +113,11 @@ CHECKS = {
         "quotes and backslashes, numbers) with the exact file content the writers must produce (concatenation of the encoder specifications' bytes) and the Maps the readers must return (XML: fixed point of each Map's own round trip, checked as a theorem; JSON/gob/Copy: identity); "
         "the harness writes real temporary files with XmlFile/XmlFileIndent/JsonFile/JsonFileIndent (three indent strings) and reads them back with the four readers incl. Raw. Reader half: every stream profile whole and cut at every byte offset through real files, and the cut profiles through all reader schedules.",
    ref="DESIGN.md section 4, C19", technique="TLA+ stream + encoder specs (TLC), exact file content and read-back replay through real temporary files"),
+ "C20": dict(
+   text="TLA+ module MxjLegacy: every exported function of j2x, x2j and x2j-wrapper with a core counterpart is listed with the composition it must equal, and x2j-wrapper's own walkers (PathsForKey, PathForKeyShortest, ValuesFromKeyPath, ValuesAtKeyPath) are specified "
+        "declaratively over the core path semantics (attribute entries skipped at wildcard steps unless requested); TLC checks their agreement with the core operators on every Map of the bounded space and prints the expected results. The harness calls EVERY bound function "
+        "(the binding list is compared with the exported identifiers parsed from the three packages with go/parser: an unbound export or an uncalled binding fails the check) and compares with the specification's prediction and with the composition executed on the real core.",
+   ref="DESIGN.md section 4, C20", technique="TLA+ declarative wrapper specs + binding table (TLC), spec->code replay and differential against the core composition"),
 }
 NOT_YET = "machinery for this property is not built yet in this round (design in DESIGN.md section 4); no claim is made"
 
